@@ -24,7 +24,7 @@ def pack_bits(bits):
 
 
 def build_partition(rng, data, ivfc_log2=(6, 6, 6, 6), dpfs_log2=(None, 5, 6), external=False, selector=0,
-                    uninit_blocks=()):
+                    uninit_blocks=(), uninit_up=()):
     """returns (descriptor bytes, partition bytes, info)"""
     b1, b2, b3, b4 = (1 << x for x in ivfc_log2)
     D = len(data)
@@ -36,9 +36,17 @@ def build_partition(rng, data, ivfc_log2=(6, 6, 6, 6), dpfs_log2=(None, 5, 6), e
             lv3[ub * 0x20:(ub + 1) * 0x20] = bytes(0x20)
     lv3 = bytes(lv3)
     nb3 = ceil_div(len(lv3), b3)
-    lv2 = b''.join(sha(lv3[i * b3:(i + 1) * b3].ljust(b3, b'\0')) for i in range(nb3))
+    lv2 = bytearray(b''.join(sha(lv3[i * b3:(i + 1) * b3].ljust(b3, b'\0')) for i in range(nb3)))
+    for k, ub in uninit_up:        # a whole level-3 block never written: its expected hash in level 2 is all zero
+        if k == 3:
+            lv2[(ub % nb3) * 0x20:(ub % nb3 + 1) * 0x20] = bytes(0x20)
+    lv2 = bytes(lv2)
     nb2 = ceil_div(len(lv2), b2)
-    lv1 = b''.join(sha(lv2[i * b2:(i + 1) * b2].ljust(b2, b'\0')) for i in range(nb2))
+    lv1 = bytearray(b''.join(sha(lv2[i * b2:(i + 1) * b2].ljust(b2, b'\0')) for i in range(nb2)))
+    for k, ub in uninit_up:        # ... or a whole level-2 block (zero hash in level 1)
+        if k == 2:
+            lv1[(ub % nb2) * 0x20:(ub % nb2 + 1) * 0x20] = bytes(0x20)
+    lv1 = bytes(lv1)
     nb1 = ceil_div(len(lv1), b1)
     master = b''.join(sha(lv1[i * b1:(i + 1) * b1].ljust(b1, b'\0')) for i in range(nb1))
     # the IVFC levels inside the DPFS level-3 view
